@@ -813,7 +813,16 @@ class ExprMixin(object):
         elem = a.elem if a.elem == b.elem else None
         res = self.new_symbolic_seq(st, a.cls, elem, length=la + lb)
         k = u.fresh_int("k")
-        ea, eb, er = self.seq_elems(st, a), self.seq_elems(st, b), self.seq_elems(st, res)
+        ea, eb = self.seq_elems(st, a), self.seq_elems(st, b)
+        if a.cls == "list":
+            # name the three element arrays so that the quantified facts have usable triggers
+            rel = u.fresh("cat", u.ElemsSort)
+            st.heap["$at"] = z3.Store(self.heap_array(st, "$at"), self.as_ref(res), rel)
+            st.assume(z3.ForAll([k], z3.Implies(z3.And(0 <= k, k < la), rel[k] == ea(k)), patterns=[rel[k]]))
+            st.assume(z3.ForAll([k], z3.Implies(z3.And(la <= k, k < la + lb), rel[k] == eb(k - la)), patterns=[rel[k]]))
+            st.assume(z3.ForAll([k], z3.Implies(z3.And(0 <= k, k < lb), rel[k + la] == eb(k)), patterns=[rel[k + la]]))
+            return res
+        er = self.seq_elems(st, res)
         st.assume(z3.ForAll([k], z3.Implies(z3.And(0 <= k, k < la), er(k) == ea(k))))
         st.assume(z3.ForAll([k], z3.Implies(z3.And(0 <= k, k < lb), er(k + la) == eb(k))))
         return res
